@@ -65,6 +65,37 @@ class SPure(PureScheduler):
         return "<%s>" % self.vname
 
 
+class Hang(BaseException):
+    """a library call did not come back within the watchdog delay"""
+
+
+@contextlib.contextmanager
+def watchdog(seconds=3.0):
+    """the sequential API calls checked here take microseconds; one that is
+    still running after `seconds` is reported as non-terminating (workers are
+    single-threaded processes, so a real-time signal is safe)"""
+    import signal
+
+    def on_alarm(signum, frame):
+        raise Hang("no answer within %ss" % seconds)
+    old = signal.signal(signal.SIGALRM, on_alarm)
+    signal.setitimer(signal.ITIMER_REAL, seconds)
+    try:
+        yield
+    finally:
+        signal.setitimer(signal.ITIMER_REAL, 0)
+        signal.signal(signal.SIGALRM, old)
+
+
+def guarded(fn, *args, **kw):
+    """-> (value, None) or (None, message) when the call hangs"""
+    try:
+        with watchdog():
+            return fn(*args, **kw), None
+    except Hang as exc:
+        return None, "a library call does not terminate (%s)" % exc
+
+
 @contextlib.contextmanager
 def captured():
     buf = io.StringIO()
@@ -163,6 +194,9 @@ def new_result():
 
 
 def add_violation(res, key, msg, replay, cap=6):
+    if key.endswith('hang') or 'does not terminate' in msg:
+        # every further case would cost a watchdog delay: give the item up
+        res['abort'] = True
     if len(res['violations']) < cap:
         res['violations'].append({'key': key, 'msg': msg,
                                   'replay': dict(replay, engine='seq')})
